@@ -173,6 +173,9 @@ func runMutatorCase(id string, rnd *rand.Rand, c *chooser, k *kindSpec, v primit
 		}
 	} else {
 		dec, consumed, doc, dw := decodeFrame(codec, enc)
+		// judged for EVERY sequence, direction-appropriate or not: what encodes decodes again, and the declared length is the emitted length
+		rec["decode"] = doc
+		rec["lengths_ok"] = doc == "ok" && consumed == len(enc) && int(dec.Header.BodyLength) == len(enc)-headerLen(v)
 		switch {
 		case doc != "ok":
 			if why == "" {
